@@ -17,6 +17,7 @@ import (
 	"os"
 	"strconv"
 	"strings"
+	"sync/atomic"
 	"testing"
 	"time"
 
@@ -33,7 +34,22 @@ func TestReplay(t *testing.T) { pbt.Replay(t) }
 // must complete (a blocking Get while an element is available, a whole
 // scenario that makes no progress) is reported after this long. 30 s is six
 // orders of magnitude above a condition-variable wake-up.
+//
+// Once a hang has been reported in this process (the run is failing already),
+// rapid re-executes variants of the failing case while shrinking; those
+// re-executions use a 5 s limit so that shrinking terminates in reasonable time.
+// A replay of the shrunk case runs in a fresh process with the full limit.
+var hangSeen atomic.Bool
+
 func hangLimit() time.Duration {
+	d := baseHangLimit()
+	if hangSeen.Load() && d > 5*time.Second {
+		return 5 * time.Second
+	}
+	return d
+}
+
+func baseHangLimit() time.Duration {
 	if v := os.Getenv("VERIF_C11_HANG_S"); v != "" {
 		if n, err := strconv.Atoi(v); err == nil && n > 0 {
 			return time.Duration(n) * time.Second
@@ -77,6 +93,7 @@ func guarded(get func() interface{}) (v interface{}, returned bool) {
 	case v = <-ch:
 		return v, true
 	case <-tm.C:
+		hangSeen.Store(true)
 		return nil, false
 	}
 }
@@ -330,7 +347,7 @@ func keys(m map[string]bool) []string {
 
 var specSeqSingle = pbt.Register(pbt.Spec[SeqCase]{
 	Prop: "C11", Name: "seq-single",
-	Rule: "rapid-generated histories of 1-60 operations (put, put-force, blocking get only when non-empty, get-no-wait, get-timeout 1-30 ms, clear, set-capacity incl. 0/negative/below current size, size) on one RequestQueue with recording Failed/Overflowed callbacks (each sometimes left nil), compared step by step with a slice+capacity model; non-trivial = history with at least one refused put or one eviction; distinct by operation sequence",
+	Rule:  "rapid-generated histories of 1-60 operations (put, put-force, blocking get only when non-empty, get-no-wait, get-timeout 1-30 ms, clear, set-capacity incl. 0/negative/below current size, size) on one RequestQueue with recording Failed/Overflowed callbacks (each sometimes left nil), compared step by step with a slice+capacity model; non-trivial = history with at least one refused put or one eviction; distinct by operation sequence",
 	Quick: 8000, Thorough: 200000,
 	Draw: func(t *rapid.T) SeqCase {
 		return SeqCase{
@@ -343,7 +360,18 @@ var specSeqSingle = pbt.Register(pbt.Spec[SeqCase]{
 	Run: runSeqSingle,
 })
 
-func TestSeqSingle(t *testing.T) { specSeqSingle.Check(t) }
+// seqFailed is set when a sequential sub-check failed in this process. The
+// concurrent sub-checks are then skipped: the run is failing already, and a queue
+// that is broken sequentially can spin or block forever under load.
+var seqFailed atomic.Bool
+
+func noteSeq(t *testing.T) {
+	if t.Failed() {
+		seqFailed.Store(true)
+	}
+}
+
+func TestSeqSingle(t *testing.T) { defer noteSeq(t); specSeqSingle.Check(t) }
 
 func rep(k string, n int) []SOp {
 	out := make([]SOp, n)
@@ -363,6 +391,7 @@ func cat(parts ...[]SOp) []SOp {
 
 // Hand-written boundary histories, run through the same machinery.
 func TestSeqSingleBoundaries(t *testing.T) {
+	defer noteSeq(t)
 	for _, c := range []SeqCase{
 		{Cap: 1, Ops: cat(rep("put", 3), rep("force", 3), rep("get", 2))},
 		{Cap: 3, Ops: cat(rep("put", 5), rep("nowait", 5))},
@@ -543,7 +572,7 @@ func runSeqDouble(c DSeqCase) *pbt.Result {
 
 var specSeqDouble = pbt.Register(pbt.Spec[DSeqCase]{
 	Prop: "C11", Name: "seq-double",
-	Rule: "rapid-generated histories of 1-60 operations (put1/2, put-force1/2, blocking get only when non-empty, get-no-wait, get-timeout 1-30 ms, clear, set-capacity, size) on one RequestDoubleQueue compared step by step with a two-slice model that serves queue 1 first; refusal/eviction observed through return values, Size1/Size2 and content (the callbacks are unexported); non-trivial = history with at least one refused put or one eviction; distinct by operation sequence",
+	Rule:  "rapid-generated histories of 1-60 operations (put1/2, put-force1/2, blocking get only when non-empty, get-no-wait, get-timeout 1-30 ms, clear, set-capacity, size) on one RequestDoubleQueue compared step by step with a two-slice model that serves queue 1 first; refusal/eviction observed through return values, Size1/Size2 and content (the callbacks are unexported); non-trivial = history with at least one refused put or one eviction; distinct by operation sequence",
 	Quick: 6000, Thorough: 160000,
 	Draw: func(t *rapid.T) DSeqCase {
 		return DSeqCase{
@@ -555,9 +584,10 @@ var specSeqDouble = pbt.Register(pbt.Spec[DSeqCase]{
 	Run: runSeqDouble,
 })
 
-func TestSeqDouble(t *testing.T) { specSeqDouble.Check(t) }
+func TestSeqDouble(t *testing.T) { defer noteSeq(t); specSeqDouble.Check(t) }
 
 func TestSeqDoubleBoundaries(t *testing.T) {
+	defer noteSeq(t)
 	for _, c := range []DSeqCase{
 		{Cap1: 2, Cap2: 2, Ops: cat(rep("put2", 3), rep("put1", 3), rep("get", 4), rep("nowait", 1))},
 		{Cap1: 1, Cap2: 1, Ops: cat(rep("force2", 3), rep("force1", 3), rep("get", 2))},
